@@ -89,6 +89,16 @@ def handle (j : Json) : Except String Json := do
       | .ok (s, qs') => pure (Json.mkObj [("ok", .arr ((s.out ++ added.map (fun p => Write.link p.1 p.2)).map jsonOfWrite).toArray),
                                           ("queue", .arr (qs'.queue.map jOpt).toArray), ("pos", .arr (qs'.pos.map jOpt).toArray)])
       | .error e => pure (jsonOfErr e)
+  | "txn" =>
+      -- the connection flags around the statements of one flush (mode "flush": SessionCache.flush; "exec": Entity.flush(obj))
+      let inTxn ← argBool j "inTxn"
+      let immediate ← argBool j "immediate"
+      let ws ← listOf writeOf (← j.getObjVal? "writes")
+      let mode ← argStr j "mode"
+      let c : Conn := { inTxn, immediate, committed := [], pending := [] }
+      let c' := if mode == "flush" then flushConn true c ws else execAll c ws
+      pure (Json.mkObj [("inTxn", .bool c'.inTxn), ("immediate", .bool c'.immediate), ("begin", .bool (!c.inTxn && c'.inTxn)),
+                        ("autocommitted", jNat c'.committed.length), ("pending", jNat c'.pending.length)])
   | "accepts" =>
       -- run a statement list against the immediate-FK database model
       let refs ← listOf (listOf refOf) (← j.getObjVal? "refs")
